@@ -670,7 +670,7 @@ theorem fanF_worker {G : Ctx} (hs : Src G) (hns : NS G.scripts) (fuel : Nat) : F
   have hWI : WInv G n0 s := hI
   -- C04 for this very execution: when it returns without error, exactly the batch was acknowledged
   have hc04 := fan_spec (fun _ => True) (fun _ _ _ _ => trivial) fuel (fun f _ => pipe_nosplit f)
-    (.run .worker) workerContract node sb s s' r trivial h2 trivial hWI.base.ns hb h
+    (.run .worker) workerContract node sb s s' r trivial h2 trivial (hWI.base.ns hns) hb h
   have hfinish : ∀ (F' : FanCtx), F'.m0 = n0 → F'.L = sb.pos.length → MBet (workerMC G hs) F' s' →
       ExtT (tasksL node.next) (destsL node.next) (InR G n0 sb.pos.length) (G.view s) (G.view s') →
       OutC (workerMC G hs) (tasksL node.next) (destsL node.next) n0 sb.pos.length s s' r := by
